@@ -10,8 +10,8 @@ prop("C05",
      rule="Hypothesis: data (noise, tones+noise, coloured noise, trend, integer; N 16..64, real/complex) x estimator row x "
           "admissible NFFT1 (even, odd, prime, power of two; >= N for periodogram/multitaper, >= 2 lag+1 correlogram, >= 2 order "
           "minimum variance, > order parametric) x NFFT2 = c NFFT1, c in {2,3,4,5}; scale_by_freq off.  Non-trivial: c NFFT1 > N "
-          "and psd1 not flat (max/min > 1.01).  Adaptive multitaper has its own sub-check with noise-like data (line <= 3 sigma: "
-          "asserted) and strong-line data (line > 3 sigma: the open known finding D17, counted).",
+          "and psd1 not flat (max/min > 1.01).  Adaptive multitaper has its own sub-check with noise-like data (line <= 1 sigma: "
+          "asserted) and strong-line data (line > 1 sigma: the open known finding D17, counted).",
      assumptions=["values at common frequencies: max|a-b| <= 1e-6 max|b| (+ per bin 1e-6 for model spectra, 1e-4 ARMA; MUSIC/EV "
                   "as 1/pseudo-spectrum); model parameters identical to atol 1e-12*max(1,|v|)",
                   "adaptive multitaper: the iteration's stopping rule depends on NFFT, so for noise-like data the two grids are "
@@ -99,6 +99,21 @@ def c05_mtm(ctx, case):
     ctx.check(S1.shape == (case["k"], nfft) and S2.shape == (case["k"], nfft * c), "eigenspectra shapes %s %s" % (S1.shape, S2.shape))
     scale = float(np.max(np.abs(S1)))
     ctx.close(S1, S2[:, ::c], "eigenspectra at common frequencies depend on NFFT", rtol=0, atol=1e-9 * scale)
+    # precomputed tapers supplied by the caller and used for both grids (the same arrays, as a user would)
+    v, e = spectrum.dpss(len(x), case["NW"], case["k"])
+    e0, v0 = np.array(e, copy=True), np.array(v, copy=True)
+    pa = spectrum.MultiTapering(x, e=e, v=v, NFFT=nfft, method=case["method"], scale_by_freq=False)
+    qa = np.real(np.asarray(pa.psd))
+    pb = spectrum.MultiTapering(x, e=e, v=v, NFFT=nfft * c, method=case["method"], scale_by_freq=False)
+    qb = np.real(np.asarray(pb.psd))
+    va, vb, ncommon = common(qa, qb, c)
+    ctx.check(ncommon == len(qa), "grid %d has frequencies missing from grid %d" % (nfft, nfft * c))
+    ctx.vclose(va, vb, "MultiTapering with caller-supplied tapers: value at a common frequency depends on NFFT (%d vs %d, method=%s)"
+               % (nfft, nfft * c, case["method"]), tol=1e-6, sig={"clause": "precomputed-reused"})
+    ctx.close(np.asarray(pa.eigenvalues), np.asarray(pb.eigenvalues), "eigenvalues reported with caller-supplied tapers depend on NFFT",
+              rtol=0, atol=1e-12, sig={"clause": "precomputed-reused"})
+    ctx.check(np.array_equal(e, e0) and np.array_equal(v, v0), "the caller's taper/eigenvalue arrays were modified by the estimator",
+              sig={"clause": "precomputed-reused"})
 
 
 # ---- adaptive multitaper -----------------------------------------------------
@@ -109,7 +124,7 @@ def adapt_case(draw):
     NW = draw(st.sampled_from([2.0, 2.5, 3.0, 4.0]))
     k = draw(st.integers(2, int(2 * NW)))
     strong = draw(st.booleans())
-    ratio = draw(st.floats(3.5, 200.0)) if strong else draw(st.sampled_from([0.0, 0.5, 1.0, 2.0, 3.0]))
+    ratio = draw(st.floats(1.5, 200.0)) if strong else draw(st.sampled_from([0.0, 0.5, 1.0, 0.25]))
     nfft = draw(st.integers(N, 2 * N + 2))
     return {"n": N, "complex": cplx, "NW": NW, "k": k, "seed": draw(gen.seeds), "ratio": ratio,
             "f": draw(st.floats(0.03, 0.47)), "sigma": draw(st.sampled_from([1.0, 0.01, 30.0])),
@@ -142,13 +157,13 @@ def adapt_data(case):
 def c05_adapt(ctx, case):
     x = adapt_data(case)
     nfft, c = case["nfft"], case["c"]
-    strong = case["ratio"] > 3.0
+    strong = case["ratio"] > 1.0
     sig = {"line": "strong" if strong else "none", "row": "mtm_adapt"}
     ctx.sig_on_exception = {"row": "mtm_adapt"}
     a = spectrum.MultiTapering(x, NW=case["NW"], k=case["k"], NFFT=nfft, method="adapt", scale_by_freq=False)
     b = spectrum.MultiTapering(x, NW=case["NW"], k=case["k"], NFFT=nfft * c, method="adapt", scale_by_freq=False)
     pa, pb = np.asarray(a.psd), np.asarray(b.psd)
-    ctx.cls("line>3sigma" if strong else "line<=3sigma", "complex" if case["complex"] else "real", "odd" if nfft % 2 else "even")
+    ctx.cls("line>1sigma" if strong else "line<=1sigma", "complex" if case["complex"] else "real", "odd" if nfft % 2 else "even")
     ctx.nontrivial(True)
     for q in (pa, pb):
         ctx.check(not np.iscomplexobj(q) or float(np.max(np.abs(q.imag))) == 0, "adaptive multitaper PSD is complex", sig={"row": "mtm_adapt"})
